@@ -45,6 +45,13 @@ if h:
         else:
             w = c.work
             mism = compare(os.path.join(w, "impl.obs"), os.path.join(w, "model.obs"))
+            # how close the degenerate LZW inputs bring the reader's staging area to the pending output
+            # (model bookkeeping, LZWStage.v; the buffer has lzw_outputLen = 8192 bytes)
+            hw = [int(v) for k, v in load(os.path.join(w, "model.obs")).items() if k.endswith(".hw") and v.isdigit()]
+            if hw:
+                c.cov["lzw_staging_high_water_mark"] = max(hw)
+                if max(hw) < 7000:
+                    c.notes.append("degenerate LZW inputs reach only %d bytes of the staging buffer" % max(hw))
             if mism:
                 kinds = sorted({m["id"].rstrip("0123456789") for m in mism})
                 c.tie_broken(
@@ -77,6 +84,10 @@ c.finish(
         "most ccitt_max_rows rows; assumed for Flate (zlib) and CCITTFax with K > 0",
         "MakeFilter treats an empty parameter dictionary like a missing one (every parse function only looks keys up)",
         "Go ints are 64 bit (flate_ints / int_ok)",
+        "lzw_staging_safe: the LZW reader stages an expansion in the last n bytes of r.output and flushes pending bytes "
+        "only after a code when there are >= flushBuffer of them (reader.go, read by hand; the two sizes and maxCode are "
+        "translated); the bookkeeping model LZWStage.v is tied by the degenerate inputs (expansions up to 3839 bytes, "
+        "high-water mark reported by the model) decoded identically by implementation and model",
     ],
     trusted=[
         "hand-written Gallina models coq/C06/{AHx,A85,RunLen,LZW,Predict,Chain,FilterParams}.v of filter.go, "
